@@ -28,10 +28,18 @@ def deliveredCtr (msgs : List Msg) (i : Nat) : Nat := (msgs.map (·.ctr i)).sum
 def withinBudget (max : Nat) (m : Msg) : Bool :=
   decide (sumSize m.files < max) || decide (m.files.length ≤ 1)
 
+def maxLen : List Nat → Nat
+  | [] => 0
+  | x :: r => Nat.max x (maxLen r)
+
+def Msg.statsLen (m : Msg) : Nat :=
+  match m.stats with
+  | none => 0
+  | some s => s.c.length
+
 /-- number of counter positions that occur anywhere in the case -/
 def width (evs : List Event) (msgs : List Msg) : Nat :=
-  (evs.map (·.stats.c.length)).foldl Nat.max
-    ((msgs.map fun m => match m.stats with | none => 0 | some s => s.c.length).foldl Nat.max 0)
+  maxLen (evs.map (·.stats.c.length) ++ msgs.map Msg.statsLen)
 
 def filesOk (evs : List Event) (msgs : List Msg) : Bool := decide (deliveredFiles msgs = producedFiles evs)
 
@@ -43,6 +51,18 @@ def budgetOk (max : Nat) (msgs : List Msg) : Bool := msgs.all (withinBudget max)
 /-- the whole statement -/
 def checkP (max : Nat) (evs : List Event) (msgs : List Msg) : Bool :=
   filesOk evs msgs && countersOk evs msgs && budgetOk max msgs
+
+/-- ranking used by the driver for the collector cases: descending by a key that is injective on small ids
+    (the harness gives file `id` the score `(id * 7919) % 10007`) -/
+def scoreKey (id : Nat) : Nat := (id * 7919) % 10007
+def sortByScore (l : List File) : List File := l.mergeSort fun a b => decide (scoreKey b.id ≤ scoreKey a.id)
+
+/-- the statement for the collector alone: counters conserved, files delivered exactly once (as a multiset: ranking may
+    reorder them) -/
+def checkCollector (evs out : List Event) : Bool :=
+  let msgs : List Msg := out.map fun e => ⟨e.files, some e.stats, e.prog⟩
+  countersOk evs msgs &&
+  decide (((deliveredFiles msgs).map (·.id)).mergeSort (· ≤ ·) = ((producedFiles evs).map (·.id)).mergeSort (· ≤ ·))
 
 /-- which clause fails first (key of a SPECFAIL) -/
 def failKey (max : Nat) (evs : List Event) (msgs : List Msg) : String :=
